@@ -85,7 +85,16 @@ def eval_pattern(cfg, s, depth=0):
             argv = json.loads("[" + args + "]") if args.strip() else []
         except Exception:
             return ("err",)
-        if fn == "env":
+        userfn = cfg.get("meta", {}).get("functions", {}).get(fn, "")
+        if fn in ("env", "envInt", "todo") and userfn:
+            # a user registration under a built-in name replaces the built-in (the last registration wins)
+            if userfn.endswith(".Fn1"):
+                vals.append("fn1/%d" % len(argv))
+            elif userfn.endswith(".FnInt"):
+                vals.append(41 + len(argv))
+            else:
+                return ("err",)
+        elif fn == "env":
             if argv and argv[0] in ENVV:
                 vals.append(ENVV[argv[0]])
             elif len(argv) > 1:
